@@ -67,8 +67,14 @@ def same_value(a, b):
     return ta is tb and a == b
 
 
-def jv_list(v):
+def jv_list(v, elem_type=None):
     return v
+
+
+def real_plus(x, c):
+    """exact sum of a float and a small constant (run-time evaluation: fractions)"""
+    from fractions import Fraction
+    return Fraction(x) + Fraction(c)
 
 
 def fresh(x):
@@ -79,4 +85,5 @@ def allocated(x):
     return True
 
 
-__all__ = ["parse_date", "jv_dict", "same_value", "url_part", "re_search", "dict_without", "jv_list", "EPOCH", "ms_aligned", "floor_to_ms", "instants", "fresh", "allocated"]
+__all__ = ["parse_date", "jv_dict", "same_value", "url_part", "re_search", "dict_without", "jv_list", "EPOCH", "ms_aligned", "floor_to_ms", "instants", "fresh", "allocated", "real_plus"]
+
